@@ -16,7 +16,7 @@ def main():
     if rp.get("kind") == "contract":
         from curtsies.formatstring import FmtStr, Chunk
         from pyvc.contract import REGISTRY
-        for m in ("formatstring", "formatstringarray", "window", "events", "escseqparse"):
+        for m in ("formatstring", "formatstringarray", "window", "events", "escseqparse", "atts", "columns", "memo", "splitter", "valuemodel"):
             try:
                 importlib.import_module("contracts." + m)
             except ModuleNotFoundError:
@@ -29,6 +29,13 @@ def main():
         print("inputs:", rp["args"])
         print("holds" if ok else f"STILL VIOLATED: {clause}: {detail}")
         return 0 if ok else 1
+    if rp.get("kind") == "probe":
+        from pyvc.contract import REGISTRY
+        for m in ("valuemodel",):
+            importlib.import_module("contracts." + m)
+        fails = list(REGISTRY[rp["contract"]].probe())
+        print("holds" if not fails else f"STILL VIOLATED: {fails[0][0]}: {fails[0][2]} (inputs {fails[0][1]})")
+        return 0 if not fails else 1
     if rp.get("kind") == "suite":
         mod = importlib.import_module(rp["module"])
         ok, detail = mod.replay(rp["case"])
